@@ -180,23 +180,15 @@ Proof.
 Qed.
 Print Assumptions C04_only_new_null_refuted.
 
-(* keys of b are matched as patterns: {ab:1, ac:2} * {a*:3}.  [wild_flat] is
-   what the implementation does (tied by the check on flat maps): both keys
-   renamed, one value overwritten, duplicate keys; the documented merge
-   appends the new key *)
-Theorem C04_wildcard_key_refuted :
-  exists ea eb er, NoDup (keys ea) /\ NoDup (keys eb) /\ merge fl0 (Map ea) (Map eb) = Some (Map er) /\
-                   wild_flat ea eb <> er /\ ~ NoDup (keys (wild_flat ea eb)).
-Proof.
-  exists [([97; 98], i_ 1); ([97; 99], i_ 2)], [([97; 42], i_ 3)],
-         [([97; 98], i_ 1); ([97; 99], i_ 2); ([97; 42], i_ 3)].
-  split; [repeat constructor; cbn; intuition discriminate|].
-  split; [repeat constructor; cbn; intuition discriminate|].
-  split; [vm_compute; reflexivity|].
-  split; [intro H; vm_compute in H; discriminate|].
-  intro H. vm_compute in H. inversion H as [|x l Hn _]. apply Hn. left. reflexivity.
-Qed.
-Print Assumptions C04_wildcard_key_refuted.
+(* keys are data: * and ? in a key of b are ordinary characters, so every theorem
+   above holds for such keys too (before the repair recorded in KNOWN_FINDINGS.txt
+   the implementation matched them as patterns: {ab:1, ac:2} * {a*:3} renamed both
+   keys).  The instance that used to fail: *)
+Theorem C04_pattern_keys_are_literal : forall fl ea k vb r,
+  f_existing fl = false -> lookup ea k = None -> ukeys vb ->
+  merge fl (Map ea) (Map [(k, vb)]) = Some r -> r = Map (ea ++ [(k, vb)]).
+Proof. exact new_single_key_appended. Qed.
+Print Assumptions C04_pattern_keys_are_literal.
 
 (* `+` is not idempotent (by design: a sequence is appended to itself) *)
 Theorem C04_idempotent_append_refuted : exists a, ukeys a /\ merge fl_p a a <> Some a /\ merge fl_p a a <> None.
@@ -221,3 +213,9 @@ Proof.
   split; [repeat constructor; cbn; intuition discriminate|].
   split; vm_compute; reflexivity.
 Qed.
+
+(* {ab:1, ac:2} * {a*:3} = {ab:1, ac:2, a*:3} *)
+Example C04_example_pattern_key :
+  merge fl0 (Map [([97; 98], i_ 1); ([97; 99], i_ 2)]) (Map [([97; 42], i_ 3)])
+  = Some (Map [([97; 98], i_ 1); ([97; 99], i_ 2); ([97; 42], i_ 3)]).
+Proof. vm_compute. reflexivity. Qed.
